@@ -522,6 +522,15 @@ fn run_bin<X: BinRS>(ctx: &mut Ctx, prop: &str, gen: &BitGen) {
                 if let Some(t3) = ctx.total("construct", "", 2, 0, 0, || X::new_(r.ones.iter().copied().collect::<BitVector>())) {
                     ctx.obs("built from positions == built from bools", "", 0, 0, 0, Exp::Is(true), || t3 == t);
                 }
+                let mut messy: Vec<usize> = r.ones.iter().rev().copied().collect();
+                messy.extend(r.ones.iter().copied().step_by(2));
+                if let Some(t4) = ctx.total("construct", "", 3, 0, 0, || X::new_(messy.iter().copied().collect::<BitVector>())) {
+                    ctx.obs("built from repeated / unsorted positions == built from bools", "", 0, 0, 0, Exp::Is(true), || t4 == t);
+                    let d = ctx.digest_of(|c| sweep_binrs(c, &t4, &r, dense, false, ""));
+                    if d != d0 {
+                        ctx.violation("construction path", "", "bit vector collected from repeated / unsorted positions vs from bools".into(), "identical answers".into(), "answers differ".into());
+                    }
+                }
             }
             ctx.obs("clone == original", "", 0, 0, 0, Exp::Is(true), || t.clone() == t);
             if !bits.is_empty() {
@@ -663,6 +672,19 @@ fn run_bits(ctx: &mut Ctx, prop: &str, mutable: bool, gen: &BitGen) {
                     ctx.obs("collect(positions) == collect(bools)", "", 0, 0, 0, Exp::Is(true), || r.ones.iter().copied().collect::<BitVectorMut>() == b);
                 }
                 ctx.obs("clone == original", "", 0, 0, 0, Exp::Is(true), || b.clone() == b);
+                if bits.last() == Some(&true) {
+                    // a position list may repeat positions and need not be sorted
+                    let mut messy: Vec<usize> = r.ones.iter().rev().copied().collect();
+                    messy.extend(r.ones.iter().copied().step_by(2));
+                    messy.push(*r.ones.last().unwrap());
+                    ctx.obs("collect(positions, repeated and unsorted) == collect(bools)", "", 0, 0, 0, Exp::Is(true), || messy.iter().copied().collect::<BitVectorMut>() == b);
+                    ctx.obs("count_ones of collect(positions, repeated and unsorted)", "", 0, 0, 0, Exp::Is(r.ones.len()), || messy.iter().copied().collect::<BitVectorMut>().count_ones());
+                    ctx.obs("extend(positions already set) keeps the vector equal", "", 0, 0, 0, Exp::Is(true), || {
+                        let mut c = b.clone();
+                        c.extend(r.ones.iter().copied().take(5));
+                        c == b
+                    });
+                }
                 let mut pushed = BitVectorMut::new();
                 for &x in &bits {
                     pushed.push(x);
@@ -692,6 +714,12 @@ fn run_bits(ctx: &mut Ctx, prop: &str, mutable: bool, gen: &BitGen) {
                     ctx.obs("collect(u32 positions) == collect(bools)", "", 0, 0, 0, Exp::Is(true), || r.ones.iter().map(|&p| p as u32).collect::<BitVector>() == b);
                     ctx.obs("collect(i64 positions) == collect(bools)", "", 0, 0, 0, Exp::Is(true), || r.ones.iter().map(|&p| p as i64).collect::<BitVector>() == b);
                 }
+                if bits.last() == Some(&true) {
+                    let mut messy: Vec<usize> = r.ones.iter().rev().copied().collect();
+                    messy.extend(r.ones.iter().copied().step_by(3));
+                    ctx.obs("collect(positions, repeated and unsorted) == collect(bools)", "", 0, 0, 0, Exp::Is(true), || messy.iter().copied().collect::<BitVector>() == b);
+                    ctx.obs("count_ones of collect(positions, repeated and unsorted)", "", 0, 0, 0, Exp::Is(r.ones.len()), || messy.iter().copied().collect::<BitVector>().count_ones());
+                }
                 ctx.obs("clone == original", "", 0, 0, 0, Exp::Is(true), || b.clone() == b);
                 if n > 0 {
                     let mut b2 = bits.clone();
@@ -716,7 +744,7 @@ fn tree_subjects(v: &mut Vec<Subject>, prop: &str, th: bool) {
             for &al in &aliases {
                 let huff = al.starts_with('H');
                 for &e in elems {
-                    for vm in if huff { ["hpow4", "hbig"] } else { ["pow4", "wide"] } {
+                    for vm in if huff { ["hpow4", "hbig", "hmaxy"] } else { ["pow4", "wide", "maxy"] } {
                         push(al, e, g.clone(), vm);
                     }
                 }
@@ -848,11 +876,14 @@ fn enumerate(args: &Args) -> Vec<Subject> {
             for g in tiny_all(3, if th { 6 } else { 5 }) {
                 v.push(Subject::Widths { alias: al.into(), gen: g.clone(), vmap: if huff { "hholes".into() } else { "holes".into() }, base: 8 });
                 if huff {
+                    v.push(Subject::Widths { alias: al.into(), gen: g.clone(), vmap: "hmaxy".into(), base: 8 });
+                    v.push(Subject::Widths { alias: al.into(), gen: g.clone(), vmap: "hmaxy".into(), base: 16 });
                     v.push(Subject::Widths { alias: al.into(), gen: g, vmap: "hbig".into(), base: 16 });
                 } else {
                     // values that need the whole width of u16 / u32 / u64: compared in every wider type
+                    v.push(Subject::Widths { alias: al.into(), gen: g.clone(), vmap: "maxy".into(), base: 8 });
                     for base in [16u32, 32, 64] {
-                        for vm in ["wide", "top"] {
+                        for vm in ["wide", "top", "maxy"] {
                             v.push(Subject::Widths { alias: al.into(), gen: g.clone(), vmap: vm.into(), base });
                         }
                     }
